@@ -14,6 +14,7 @@ import (
 
 	"github.com/hedzr/is"
 	"github.com/hedzr/logg/slog"
+	"pgregory.net/rapid"
 )
 
 var (
@@ -167,6 +168,15 @@ func Disturb(kind int) {
 	}
 	lg := slog.New("disturb").SetWriter(io.Discard).SetErrorWriter(io.Discard).SetLevel(slog.AlwaysLevel)
 	ctx := context.Background()
+	if kind == 8 {
+		// a record with a value whose String method panics (nil pointer); the caller recovers, as a server does
+		func() {
+			defer func() { _ = recover() }()
+			lg := slog.New("disturb-panic").SetWriter(io.Discard).SetErrorWriter(io.Discard).SetLevel(slog.AlwaysLevel).SetColorMode(false)
+			lg.Info("a value panics while it is printed", "first", 1, slog.Group("req", "user", (*panickyStringer)(nil)), "zz", 2)
+		}()
+		return
+	}
 	if kind == 7 {
 		// two garbage collections: the pools are emptied (their victim caches too), so the record under test is
 		// printed by a freshly made context - and whatever only lived in a pooled object is gone
@@ -219,5 +229,36 @@ func ManyCallSites() {
 			}()
 		}
 		slog.SetFlags(old)
+	})
+}
+
+// panickyStringer reads a field in String: a nil pointer of it panics when it is printed.
+type panickyStringer struct{ name string }
+
+func (p *panickyStringer) String() string { return "user:" + p.name }
+
+// Rare draws bits booleans and reports whether all are true: probability 2^-bits. (rapid's integer generators
+// favour small magnitudes and the bounds of a range, so "IntRange(0, n) == k" is not a 1/n event.)
+func Rare(t *rapid.T, label string, bits int) bool {
+	all := true
+	for i := 0; i < bits; i++ {
+		if !rapid.Bool().Draw(t, label) {
+			all = false
+		}
+	}
+	return all
+}
+
+// GenDisturb draws the kind of scratch record for Disturb: the two garbage collections in 1 of 32 cases (they
+// cost a millisecond), the panicking value in 1 of 8, otherwise none or one of the six records.
+func GenDisturb() *rapid.Generator[int] {
+	return rapid.Custom(func(t *rapid.T) int {
+		if Rare(t, "gcBeforeTheRecord", 5) {
+			return 7
+		}
+		if Rare(t, "panickingValueBeforeTheRecord", 3) {
+			return 8
+		}
+		return rapid.IntRange(0, 6).Draw(t, "disturbanceRecord")
 	})
 }
